@@ -25,6 +25,7 @@ type Config struct {
 	Workers        int
 	SamplePaths    int // number of complete paths whose model is recorded
 	StopAtFirst    bool
+	CrossEvery     int // record every n-th feasibility query for cross-solver re-checking (0 = off)
 	Merge          bool // enable region merging (if-conversion); off by default: merging the translate switch of a generated parser makes everything downstream symbolic
 	Deadline       time.Time
 }
@@ -130,6 +131,7 @@ type Report struct {
 	Status      map[string]int
 	Violations  []Violation
 	Unwound     []Violation
+	Cross       []CrossQuery
 	Covers      map[string]int
 	Notes       map[string]bool
 	Funcs       map[string]int64
@@ -159,6 +161,9 @@ func (r *Report) Merge(o *Report) {
 	}
 	r.Violations = append(r.Violations, o.Violations...)
 	r.Unwound = append(r.Unwound, o.Unwound...)
+	if len(r.Cross) < 200 {
+		r.Cross = append(r.Cross, o.Cross...)
+	}
 	for k, v := range o.Covers {
 		r.Covers[k] += v
 	}
@@ -311,6 +316,9 @@ func (e *Engine) ExploreFunc(name string, run func(st *State), cfgp *Config) *Re
 				}
 				rep.Violations = append(rep.Violations, st.viol...)
 				rep.Unwound = append(rep.Unwound, st.unwound...)
+				if len(rep.Cross) < 60 {
+					rep.Cross = append(rep.Cross, st.cross...)
+				}
 				if out.sample != nil && len(rep.Samples) < cfg.SamplePaths {
 					rep.Samples = append(rep.Samples, *out.sample)
 				}
